@@ -23,9 +23,10 @@ import (
 )
 
 type cpGroup struct {
-	Name  string   `json:"name"`
-	Langs []int    `json:"langs"`
-	Sigma []string `json:"sigma"`
+	Name  string     `json:"name"`
+	Langs []int      `json:"langs"`
+	Sigma []string   `json:"sigma"`
+	ML    [][]string `json:"ml"`
 }
 type cpTables struct {
 	Languages []string  `json:"languages"`
@@ -269,14 +270,14 @@ func TestVerifCPTrace(t *testing.T) {
 	ntok := vuEnvInt("VERIF_TOKENS", 120)
 	for gi, grp := range tb.Groups {
 		// fixed programs (seeded change C18m: a nesting depth kept as a flag shows only at depth 2, which needs six
-		// delimiters -- more than the quick tier enumerates and rare in the soup): every ordered pair of multi-character
-		// symbols of the group opened three times and closed three times, with a letter after each
+		// delimiters -- more than the quick tier enumerates and rare in the soup): every multi-line delimiter pair of the
+		// group opened three times and closed three times, with a letter after each, then a line comment's worth of text
 		var fixed [][]string
-		for _, o := range grp.Sigma {
-			for _, c := range grp.Sigma {
-				if o != c && len(o) >= 2 && len(c) >= 2 {
-					fixed = append(fixed, []string{o, "a", o, "a", o, "a", c, "a", c, "a", c, "a", "\n", "a", "\n"})
-				}
+		for _, ml := range grp.ML {
+			if len(ml) == 2 {
+				o, c := ml[0], ml[1]
+				fixed = append(fixed, []string{o, "a", o, "a", o, "a", c, "a", c, "a", c, "a", "\n", "a", "\n"})
+				fixed = append(fixed, []string{o, o, o, "a", c, c, "a", c, "\n", o, "a", c, "\n"})
 			}
 		}
 		for k := 0; k < per+len(fixed); k++ {
